@@ -43,6 +43,7 @@ Variable LF : Z.
 Hypothesis HLF : 1 <= LF.
 Variables (s : store) (d : C.doc).
 Hypothesis II : Inv s.
+Hypothesis Pure : pure s.
 Hypothesis Rep : abs s = map CPid d.
 Hypothesis Dpos : ids_pos C.t_id d.
 
@@ -55,7 +56,7 @@ Theorem link_splice new ref del_end d' : ids_pos C.t_id new -> NoDup (map C.t_id
   C.splice d new ref del_end = Some d' ->
   let s' := fst (splice LF s (map CPid new) (Some (P ref)) (Some (P del_end))) in
   splice LF s (map CPid new) (Some (P ref)) (Some (P del_end)) = (s', Ok tt) /\ Inv s' /\
-  abs s' = map CPid d' /\ (forall u, txt s' u = txt s u).
+  abs s' = map CPid d' /\ (forall u, txt s' u = txt s u) /\ pure s'.
 Proof.
   intros Np ND Hv H. unfold C.splice in H.
   destruct (C.split_at ref d) as [[a mb]|] eqn:H1; [|discriminate].
@@ -64,7 +65,7 @@ Proof.
   assert (P ref = CPid f) as -> by (unfold Pid; rewrite Ef; reflexivity).
   assert (P del_end = CPid y) as -> by (unfold Pid; rewrite El; reflexivity).
   assert (abs s = map CPid (a ++ (x ++ [y]) ++ b)) as Rep' by (rewrite Rep, Ed; reflexivity).
-  apply (bridge_splice C.t_id LF HLF s II a (x ++ [y]) b new f y Rep' Hf0 Hl0 (nodup_pid C.t_id new Np ND)).
+  apply (bridge_splice C.t_id LF HLF s II Pure a (x ++ [y]) b new f y Rep' Hf0 Hl0 (nodup_pid C.t_id new Np ND)).
   intros t Ht. assert (0 < C.t_id t) as Hpos by (unfold ids_pos in Np; rewrite Forall_forall in Np; apply Np; exact Ht).
   destruct (Hv t Ht) as [Hn|(rng & Er & Hin)].
   - left. unfold Pid. rewrite c_in_store_iff by assumption. exact Hn.
